@@ -467,7 +467,84 @@ class Sim:
 
 
 def make(config):
-    return Sim(config)
+    return EmptySim(config) if config.get("empty") else Sim(config)
+
+
+class EmptySim:
+    """The shared EMPTY_PAYLOAD object that stands for the body of every bodyless message, against a fresh
+    EmptyStreamReader per message: what one response's content does must not depend on what was read from
+    other bodyless responses before (differential oracle, no hand-written expectation)."""
+
+    OPS = ["new-response", "readchunk", "read", "readany", "readline", "iter_chunks", "iter_any", "iter_chunked", "nowait"]
+
+    def __init__(self, config):
+        from aiohttp.streams import EMPTY_PAYLOAD, EmptyStreamReader
+        self.loop = VLoop().hold()
+        self.real = EMPTY_PAYLOAD
+        self.real._read_eof_chunk = False          # as in a fresh process
+        self.fresh = EmptyStreamReader
+        self.ref = EmptyStreamReader()
+        self.problems = []
+        self.hist = []
+
+    def enabled(self):
+        return self.OPS
+
+    def _run(self, obj, op):
+        async def go():
+            if op == "readchunk":
+                return await obj.readchunk()
+            if op == "read":
+                return await obj.read()
+            if op == "readany":
+                return await obj.readany()
+            if op == "readline":
+                return await obj.readline()
+            if op == "nowait":
+                return obj.read_nowait()
+            it = {"iter_chunks": obj.iter_chunks, "iter_any": obj.iter_any, "iter_chunked": lambda: obj.iter_chunked(2)}[op]()
+            out = []
+            async for x in it:
+                out.append(x)
+                if len(out) > 4:
+                    return ("does-not-end", tuple(out))
+            return tuple(out)
+        t = self.loop.create_task(go())
+        self.loop.drain(200)
+        if not t.done():
+            t.cancel()
+            self.loop.drain(10)
+            return ("blocked",)
+        try:
+            return ("ok", t.result())
+        except BaseException as e:  # noqa: BLE001
+            return ("raise", type(e).__name__)
+
+    def apply(self, op, check=True):
+        self.hist.append(op)
+        if op == "new-response":
+            self.ref = self.fresh()
+            return ("new",)
+        got = self._run(self.real, op)
+        want = self._run(self.ref, op)
+        if op == "readchunk" and got[0] == want[0] == "ok" and got[1][0] == want[1][0] == b"":
+            # the end-of-chunk flag of an empty answer alternates on this object by (pinned) design; no data either way
+            got = want
+        if check and got != want:
+            kind = "iteration-does-not-end" if got[0] == "ok" and isinstance(got[1], tuple) and got[1][:1] == ("does-not-end",) else "differs-from-fresh-reader"
+            self.problems.append((f"C08:empty-payload:{kind}:{op}",
+                                  f"{op} on the shared EMPTY_PAYLOAD gives {got!r}, on a fresh reader {want!r}, after {self.hist[:-1]}"))
+        return got
+
+    def apply_quiet(self, op):
+        return self.apply(op, check=False)
+
+    def canon(self):
+        return ("empty", self.real._read_eof_chunk, self.ref._read_eof_chunk)
+
+    def close(self):
+        self.real._read_eof_chunk = False
+        self.loop.finish()
 
 
 def _spec(config):
@@ -492,6 +569,7 @@ def run(ctx):
                 ({"limit": 2, "direct": True}, 6), ({"limit": 4, "direct": True}, 6)]
     for config, depth in plan:
         bfs.bfs(ctx, _spec(config), depth)
+    bfs.bfs(ctx, _spec({"empty": True}), 5 if ctx.quick else 6)
     ctx.notes["depth_plan"] = [[c, d] for c, d in plan]
     # depth-bounded BFS never exhausts an infinite history space: report the bound
     ctx.notes["bound"] = "all histories up to the per-config depth in depth_plan"
